@@ -181,6 +181,14 @@ fn gen_other(t: &mut Tape, pool: &Pool, p: &IlParams, max_blocks: usize, allow_i
             _ => edges.push((i, t.below(n), None)),
         }
     }
+    // the exit block of a graph given to append / insert may loop: a conditional self-loop (a one-
+    // block countdown) or a conditional edge back into the graph.  (Per-instruction graphs handed
+    // to blockify keep an exit without out-edges.)
+    if allow_invalid && t.chance(1, 5) {
+        let c = gen_expr(t, pool, p, 1, 2);
+        let tgt = if t.chance(1, 2) { n - 1 } else { t.below(n) };
+        edges.push((n - 1, tgt, Some(c)));
+    }
     // entry and exit are not tied to the lowest / highest block index: renumber the blocks
     let mut perm: Vec<usize> = (0..n).collect();
     if n > 1 && t.chance(1, 2) {
@@ -1243,7 +1251,11 @@ impl<'a> Exec<'a> {
         // meaning: a's run, then b's
         let vo = osnap.view(osnap.entry);
         let eo = osnap.clean_exit();
-        debug_assert!(eo.is_some());
+        if eo.is_none() {
+            // decided by the path language above; execution "until the exit" is not defined
+            self.obs.exclude("append-meaning:appended-exit-has-out-edges");
+            return Ok(());
+        }
         let va = after.view(after.entry);
         let ea = after.clean_exit();
         let mut parts: Vec<(&FnView, Option<usize>)> = Vec::new();
@@ -1310,8 +1322,21 @@ impl<'a> Exec<'a> {
         }
         // "returns the entry and exit indices for inserted graph": running from the returned entry
         // is running the inserted graph, and it ends at the returned exit
+        // the instruction sequences that can be executed from the returned entry are those of the
+        // inserted graph (the inserted blocks are not connected to anything else yet)
+        if let (Some((lo, _)), Some((la, _))) = (path_language(&osnap, osnap.entry.unwrap(), PATH_OPS, PATH_CAP, None), path_language(&after, ie, PATH_OPS, PATH_CAP, None)) {
+            self.obs.class("paths-compared-insert");
+            if let Some(d) = first_difference(&lo, &la) {
+                self.report("insert", "executable-sequences-changed", format!("{}\n  inserted: {}\n  result: {}", d, osnap.render(), after.render()))?;
+                return Ok(());
+            }
+        }
         let vo = osnap.view(osnap.entry);
         let eo = osnap.clean_exit();
+        if eo.is_none() {
+            self.obs.exclude("insert-meaning:inserted-exit-has-out-edges");
+            return Ok(());
+        }
         let va = after.view(Some(ie));
         for k in 0..self.states.len().min(3) {
             let want = run(&vo, eo, self.states[k].clone(), MAX_OPS, MAX_STEPS);
